@@ -150,7 +150,7 @@ var driftCfgs = []driftCfg{
 	{time.Hour, time.Minute},
 	{0, 0},
 	{10 * time.Second, 24 * time.Hour},
-	{200 * 365 * 24 * time.Hour, 200 * 365 * 24 * time.Hour},
+	{50 * 365 * 24 * time.Hour, 200 * 365 * 24 * time.Hour}, // wide window: the ID shows what was parsed; stays after 1970 (MID is unsigned)
 }
 
 var baseNow = time.Date(2026, 9, 25, 12, 0, 0, 0, time.UTC)
@@ -393,7 +393,20 @@ func rfcOracle(v string) *big.Int {
 	return nil
 }
 
-func hxb(b []byte) string { return "(hx \"" + hex.EncodeToString(b) + "\")" }
+// bytes as a list of primitive ints 0x01 b1..bk, k <= 7 (see CaseDefs.v hx)
+func hxb(b []byte) string {
+	var sb strings.Builder
+	sb.WriteString("(hx [")
+	for i := 0; i < len(b); i += 7 {
+		if i > 0 {
+			sb.WriteString(";")
+		}
+		sb.WriteString("0x1")
+		sb.WriteString(hex.EncodeToString(b[i:min(i+7, len(b))]))
+	}
+	sb.WriteString("]%uint63)")
+	return sb.String()
+}
 
 func coqZ(x *big.Int) string { return "(" + x.String() + ")%Z" }
 
@@ -407,7 +420,7 @@ func coqOptZ(x *big.Int) string {
 // time-field values of a line, extracted independently of the code under test
 func timeFields(line []byte, known map[string]docMeta) [3]string {
 	var out [3]string
-	if m, ok := known[string(line)]; ok {
+	if m, ok := known[string(bytes.TrimRight(line, "\r"))]; ok {
 		for _, f := range m.Fields {
 			for i, n := range []string{"timestamp", "time", "ts"} {
 				if f.Name == n {
@@ -458,11 +471,15 @@ func buildTable(rq *request, emit func(record)) (string, bool, bool) {
 			fs = append(fs, "("+hxb([]byte(v))+", "+coqOptZ(rfcOracle(v))+")")
 		}
 		intended := "None"
-		if m, okk := known[string(line)]; okk && m.Intended != nil {
+		if m, okk := known[string(bytes.TrimRight(line, "\r"))]; okk && m.Intended != nil {
 			x, _ := new(big.Int).SetString(*m.Intended, 10)
 			intended = coqOptZ(x)
 		}
-		entries = append(entries, fmt.Sprintf("(%s, Build_docinfo %s [%s] %s)", hxb(line), cls, strings.Join(fs, "; "), intended))
+		if tf == [3]string{} && intended == "None" {
+			entries = append(entries, fmt.Sprintf("(%s, nof %s)", hxb(line), cls))
+		} else {
+			entries = append(entries, fmt.Sprintf("(%s, Build_docinfo %s [%s] %s)", hxb(line), cls, strings.Join(fs, "; "), intended))
+		}
 	}
 	for _, raw := range bytes.Split(rq.body, []byte{'\n'}) {
 		add(raw)
@@ -676,8 +693,8 @@ func (g *gen) pickInstant() time.Time {
 	case 6:
 		g.feat["time-far"] = true
 		if g.cfg == 3 {
-			// the 200-year window: stay after 1970 (MID is unsigned) and inside UnixNano's range
-			return g.now.AddDate(r.Range(-50, 190), 0, 0).Add(time.Duration(r.Intn(1e9)))
+			// the wide window: stay after 1970 (MID is unsigned) and inside UnixNano's range
+			return g.now.AddDate(r.Range(-55, 205), 0, 0).Add(time.Duration(r.Intn(1e9)))
 		}
 		// any year 0..9999: beyond time.Duration in both directions, beyond UnixNano
 		return time.Date(r.Range(0, 9999), time.Month(r.Range(1, 12)), r.Range(1, 28), r.Intn(24), r.Intn(60), r.Intn(60), r.Intn(1e9), time.UTC)
@@ -1056,7 +1073,7 @@ func main() {
 		fmt.Fprintln(os.Stderr, "need -out")
 		os.Exit(2)
 	}
-	w, err := casefile.New(*out, "C10", "From C10 Require Import Model Spec CaseDefs.", 250)
+	w, err := casefile.New(*out, "C10", "From Coq Require Import Uint63.\nFrom C10 Require Import Model Spec CaseDefs.", 250)
 	if err != nil {
 		panic(err)
 	}
